@@ -168,6 +168,32 @@ func runC08(c *Ctx) {
 		rep.Eval("identity-via-Clone/" + ic.name + "/" + suiteName(ic.suite))
 	})
 
+	// ---- (1c) what one handshake receives must not become a trust anchor for the next: a genuine server appends a
+	// foreign CA after its two certificates; afterwards a server certified only by that CA must still be refused by the
+	// same client configuration (same RootCAs pool object), and the pool must still hold what the application put in
+	for _, su := range suites {
+		rr := c.Rng(fmt.Sprintf("anchor%d", su))
+		subjectsBefore := len(pki.pool.Subjects())
+		encPlus := gmtls.Certificate{Certificate: [][]byte{pki.enc.Certificate[0], pki.other.root.Raw}, PrivateKey: pki.enc.PrivateKey}
+		scfg1, ccfg := mkS(rr, su, gmtls.NoClientCert), mkC(rr, su)
+		scfg1.Certificates = []gmtls.Certificate{pki.sig, encPlus}
+		o1 := handshakePair(ccfg, scfg1, nil)
+		w := map[string]interface{}{"suite": suiteName(su), "first_client_error": errStr(o1.cli.err), "first_server_error": errStr(o1.srv.err)}
+		if o1.cli.completed {
+			o1.cli.conn.Close()
+			o1.srv.conn.Close()
+		}
+		scfg2 := mkS(rr, su, gmtls.NoClientCert)
+		scfg2.Certificates = []gmtls.Certificate{pki.other.sig, pki.other.enc}
+		ccfg2 := mkC(rr, su) // a fresh Config value holding the *same* RootCAs pool, as an application's configs do
+		o2 := handshakePair(ccfg2, scfg2, nil)
+		w["second_client_error"], w["second_server_error"] = errStr(o2.cli.err), errStr(o2.srv.err)
+		c08Judge(rep, "identity/server-certified-by-a-CA-that-an-earlier-server-merely-sent-along", "client", o2, w)
+		if n := len(pki.pool.Subjects()); n != subjectsBefore {
+			rep.Violation("C08/trust-anchors/root-pool-changed-by-a-handshake", fmt.Sprintf("the application's RootCAs pool held %d certificates before the handshakes and holds %d now", subjectsBefore, n), w)
+		}
+		rep.Eval("identity/trust-anchor-carry-over/" + suiteName(su))
+	}
 	runC08Resumption(c, pki)
 	runC08Scripted(c, pki)
 	runC08MITM(c, pki, mkC, mkS)
